@@ -83,11 +83,11 @@ CHECKS = {
         'DESIGN.md section 4 C09'),
     'C14': (
         'property-based testing (Hypothesis) of full sessions with a recording alpha model and a transaction tap; schedule/burn-in filter and equity recomputation oracle',
-        'Generated sessions x burn-in classes: construction runs exactly at the session\'s scheduled instants that are '
+        'Generated sessions x burn-in classes: construction runs exactly at the documented schedule\'s instants that are '
         'clock events and >= burn-in; fills only at 14:30 weekdays and never before the first such instant; one equity '
         'point per business day whose close is >= burn-in, equal to cash - tapped fills + holdings at the generated '
         'close; the allocation table carries forward the latest rebalance per equity date.',
-        'Instants taken from the session\'s own schedule (C13 owns it); dense markets; fills as tapped.',
+        'Scheduled instants and business days from the independent calendar; dense markets; fills as tapped.',
         'DESIGN.md section 4 C14'),
     'C16': (
         'property-based testing (Hypothesis): signal streams and full sessions against textbook formulas over the harness\'s own price lists',
